@@ -113,12 +113,6 @@ def setElems (t : UInt8) (buf : Bytes) : Option (List Bytes) :=
 
 /-! ### zset -/
 
-/-- float64 bit pattern of a natural number below 2^53 (exact) -/
-def natToF64Bits (n : Nat) : Nat :=
-  if n = 0 then 0 else
-  let e := n.log2
-  (e + 1023) * 2 ^ 52 + (n * 2 ^ (52 - e) - 2 ^ 52)
-
 /-- `ReadFloat` for the scores the model covers: 253 NaN, 254 +Inf, 255 -Inf,
     or ASCII `[-]digits` with magnitude below 2^53 (strconv.ParseFloat is exact
     there). Other syntaxes are outside the model (`none`). -/
@@ -130,12 +124,9 @@ def floatStrBits (fs : Bytes) : Option Nat :=
     else if u = 254 then some 0x7FF0000000000000
     else if u = 255 then some 0xFFF0000000000000
     else
-      let (neg, digits) := match s with
-        | 45 :: d => (true, d)
-        | d => (false, d)
-      match decToNat? digits with
+      match decToNat? (splitSign s).2 with
       | none => none
-      | some n => if n < 2 ^ 53 then some ((if neg then 2 ^ 63 else 0) + natToF64Bits n) else none
+      | some n => if n < 2 ^ 53 then some ((if (splitSign s).1 then 2 ^ 63 else 0) + natToF64Bits n) else none
 
 def zset1Elems : Nat → Bytes → Option (List (Bytes × Nat))
   | 0, _ => some []
